@@ -1,17 +1,12 @@
 """C12 - path decoding and normalisation.  See /verif/notes/c12.md for what each unit carries."""
-import glob
-import os
-from vrun import U, REPO
+from vrun import U
 
 UNITS = []
 
 
-# Native replay links the whole library (htp_util.c references most of it); CBMC drops what is unused.
+# goto-cc link set: the real callees outside htp_util.c (native replay links the rest of the library by itself)
 def _link(exclude):
-    fs = sorted(os.path.basename(p) for p in glob.glob(os.path.join(REPO, 'htp', '*.c')))
-    fs = [f for f in fs if f not in exclude]
-    fs += ['lzma/' + os.path.basename(p) for p in sorted(glob.glob(os.path.join(REPO, 'htp', 'lzma', '*.c')))]
-    return fs
+    return [f for f in ('bstr.c', 'htp_utf8_decoder.c') if f not in exclude]
 
 
 A_B = ['bounded: every raw path of length <= N over all 256 byte values; longer paths are not covered by these units',
@@ -32,6 +27,9 @@ def maploops(k):
     return ','.join('%s.0:%d' % (f, k) for f in ('decode_u_encoding_path', 'decode_u_encoding_params', 'bestfit_codepoint', 'rf_bestfit'))
 
 
+VIN_HARNESS = 'typedef struct { %s } vin_t;\nvoid HARNESS(void) { VIN(vin_t);\n%s\nCANARY(); }'
+
+
 def bounded(name, struct, body, n_q, n_t, sub, src=('htp_util.c',), unwind_extra=2, unwindset=None, timeout=(600, 3600),
             known=KNOWN_F, extra_defs=None, flags_del=('--unsigned-overflow-check',), assumes=(), solver=None):
     """one quick unit (N=n_q) and one thorough-only unit (N=n_t) so that each gets a tight --unwind"""
@@ -44,10 +42,10 @@ def bounded(name, struct, body, n_q, n_t, sub, src=('htp_util.c',), unwind_extra
         UNITS.append(U(
             name=name + ('_deep' if deep else ''), props=['C12'], kind='bounded', src=list(src), link=_link(src), replay='vin',
             contracts_inc=['path_ref.h', 'c12_path.h'],
-            harness='typedef struct { %s } vin_t;\nvoid HARNESS(void) { VIN(vin_t);\n%s\nCANARY(); }' % (struct, body),
+            harness=VIN_HARNESS % (struct, body),
             defs={'quick': d}, thorough_only=deep,
             flags_add=['--unwind', str(n + unwind_extra)] + ([] if unwindset else ['--unwinding-assertions']),
-            unwindset=unwindset, flags_del=list(flags_del), solver=solver,
+            unwindset=(unwindset(n) if callable(unwindset) else unwindset), flags_del=list(flags_del), solver=solver,
             bound='all raw paths of length <= %d over all 256 byte values' % n,
             assumes=A_B + list(assumes), sub=sub, timeout=timeout))
 
@@ -128,6 +126,11 @@ bounded('c12_ref_decode_path_nou', S_D, DEC_BODY, 8, 10, unwindset=maploops(4), 
         flags_del=NOCONV, solver=CAD,
         sub='htp_decode_path_inplace == reference decoder, %u decoding off, one byte longer')
 
+def utf8loops(n):
+    # a rejected continuation byte is re-read as the start of the next character: up to 2N iterations
+    return maploops(4) + ',htp_utf8_decode_path_inplace.0:%d,htp_utf8_validate_path.0:%d' % (2 * n + 1, 2 * n + 1)
+
+
 # (c2b) UTF-8 stage alone: conversion and validation variants
 bounded('c12_ref_utf8', S_D, DEC_PRE + '''
   size_t rl;
@@ -139,7 +142,7 @@ bounded('c12_ref_utf8', S_D, DEC_PRE + '''
     rl = ref_utf8_path(&in.cf, C12_MAP, 0, in.a, in.la, ref, &fx);
     for (size_t i = 0; i < N; i++) ref[i] = in.a[i];
   }
-''' + DEC_CMP % {'w': 'UTF-8 stage'}, 6, 8, unwindset=maploops(4), unwind_extra=1, extra_defs=PATHCTX,
+''' + DEC_CMP % {'w': 'UTF-8 stage'}, 6, 8, unwindset=utf8loops, unwind_extra=1, extra_defs=PATHCTX,
         assumes=A_CFG + A_SYMMAP, flags_del=NOCONV, solver=CAD,
         sub='htp_utf8_decode_path_inplace / htp_utf8_validate_path == table-driven UTF-8 reference (overlong accepted and flagged, surrogates and > U+10FFFF rejected, '
             'one replacement byte per maximal ill-formed prefix): bytes, length, indicator set, status')
@@ -172,11 +175,11 @@ PIPE = DEC_PRE + '''
   VASSERT(c12_tx.response_status_expected_number == fx.status, "pipeline: expected status equals the reference pipeline");
 #endif
 '''
-bounded('c12_pipeline', S_D, PIPE, 6, 8, unwindset=maploops(4), unwind_extra=2, extra_defs=dict(PATHCTX, C12_PIPE_IDEM=1),
+bounded('c12_pipeline', S_D, PIPE, 6, 8, unwindset=utf8loops, unwind_extra=2, extra_defs=dict(PATHCTX, C12_PIPE_IDEM=1),
         assumes=A_CFG + A_SYMMAP + A_NOCONV, flags_del=NOCONV, solver=CAD,
         sub="real pipeline decode ; UTF-8 ; normalise (order of htp_normalize_parsed_uri), whole configuration symbolic: len' <= len, no dot segment, "
             "unchanged by normalising again, flags only grow")
-bounded('c12_ref_pipeline', S_D, PIPE, 5, 7, unwindset=maploops(4), unwind_extra=2, extra_defs=dict(PATHCTX, C12_PIPE_EQ=1),
+bounded('c12_ref_pipeline', S_D, PIPE, 5, 7, unwindset=utf8loops, unwind_extra=2, extra_defs=dict(PATHCTX, C12_PIPE_EQ=1),
         assumes=A_CFG + A_SYMMAP + A_NOCONV, flags_del=NOCONV, solver=CAD,
         sub='real pipeline == reference pipeline end to end (bytes, length, indicator set, status); the stage-wise units carry the same claim at larger bounds')
 
@@ -222,3 +225,74 @@ void HARNESS(void) { VIN(vin_t);
     sub='decode_u_encoding_path / decode_u_encoding_params / bestfit_codepoint with the REAL bestfit_1252 (391 triples) == reference, for every 4 input bytes '
         '(hex or not), every 32-bit code point, every configuration; the map is 00 00-terminated (unwinding assertion)',
     assumes=['full input domain; the only loop is the map scan, bounded by the constant map length 391 (unwinding assertions on)'] + A_NOCONV))
+
+# ================================================================================================
+# (a) contract units: memory safety, in-place discipline, no growth, termination, flags only grow
+# ================================================================================================
+WDEFS = {'quick': {'WCAP': 16}, 'thorough': {'WCAP': 64}}
+A_W = ['in-place writers: inline bstr of FIXED capacity WCAP (quick 16, thorough 64), content and length (<= WCAP) symbolic; larger buffers are not covered (HOWTO cost cliff)',
+       'bstr_adjust_len is the real function (bstr.c linked)']
+A_LEGAL = ['every enum-typed decoder switch holds one of its enumerators (C12_DCFG_LEGAL); boolean switches, replacement byte, flags and status are unconstrained']
+DATA = '__CPROVER_object_from(data)'
+
+
+def contract(fn, loops, harness, sub, replace=(), assumes=(), flags_del=(), min_obl=40, timeout=(300, 1200), link=('bstr.c',), name=None, src=('htp_util.c',)):
+    UNITS.append(U(name=name or fn, props=['C12', 'C01'], kind='contract', src=list(src), link=list(link), enforce=fn,
+                   contracts_inc=['c12_path.h'], replace=list(replace), loops={src[0]: {fn: loops}} if loops else {},
+                   harness=harness, defs=WDEFS, min_obl=min_obl, sub=sub, assumes=A_W + list(assumes), flags_del=list(flags_del), timeout=timeout))
+
+
+contract('htp_normalize_uri_path_inplace', {'count': 4,
+         0: dict(assigns='rpos, wpos, c, ' + DATA,
+                 inv=['rpos <= len + 1', 'wpos <= len', 'c >= -1 && c <= 255', '(c == -1) ? (wpos <= rpos && rpos <= len) : (wpos < rpos)'],
+                 dec='2 * (len + 1 - rpos) + (c != -1 ? 1 : 0)'),
+         1: dict(assigns='wpos', inv=['wpos < rpos', 'wpos <= len'], dec='wpos'),
+         2: dict(assigns='wpos', inv=['wpos < rpos', 'wpos <= len'], dec='wpos'),
+         3: dict(assigns='rpos, wpos, ' + DATA, inv=['wpos <= rpos', 'rpos <= len'], dec='len - rpos')},
+         'void HARNESS(void) { bstr *s; htp_normalize_uri_path_inplace(s); CANARY(); }',
+         sub="normaliser: memory safety; every write index is below the read cursor (wpos < rpos while a byte is pending, wpos <= rpos otherwise: never reads a byte it already overwrote); "
+             "len' <= len; frame = {len, the data bytes}; terminates (variant 2(len+1-rpos)+[c pending])")
+
+DEC_LOOP = dict(assigns='rpos, wpos, previous_was_separator, tx->flags, tx->response_status_expected_number, path->len, ' + DATA,
+                inv=['wpos <= rpos', 'rpos <= len', 'C12_FLAGS_GROW(tx->flags)', 'C12_STATUS_OK(tx->response_status_expected_number)'],
+                dec='len - rpos')
+contract('htp_decode_path_inplace', {'count': 1, 0: DEC_LOOP},
+         'void HARNESS(void) { htp_tx_t *tx; bstr *path; htp_decode_path_inplace(tx, path); CANARY(); }',
+         replace=['x2c', 'decode_u_encoding_path'], assumes=A_LEGAL + ['x2c and decode_u_encoding_path replaced by their contracts (enforced by units x2c / backed for the real map by lemma c12_u_decode_realmap)'],
+         sub="path decoder: memory safety for every configuration (every escape read is inside the string: x2c needs 2 readable bytes, %u needs 4); wpos <= rpos <= len at the loop head; "
+             "len' <= len; returns HTP_OK (HTP_ERROR iff path NULL); tx->flags only grow; expected status only takes configured values; terminates (variant len-rpos)")
+
+URL_LOOP = dict(assigns='rpos, wpos, *flags, *expected_status_code, input->len, ' + DATA,
+                inv=['wpos <= rpos', 'rpos <= len', 'C12_FLAGS_GROW(*flags)', 'C12_STATUS_OK(*expected_status_code)'], dec='len - rpos')
+contract('htp_urldecode_inplace_ex', {'count': 1, 0: URL_LOOP},
+         'void HARNESS(void) { htp_cfg_t *cfg; enum htp_decoder_ctx_t ctx; bstr *in; uint64_t *f; int *st; htp_urldecode_inplace_ex(cfg, ctx, in, f, st); CANARY(); }',
+         replace=['x2c', 'decode_u_encoding_params'], assumes=A_LEGAL + ['x2c and decode_u_encoding_params replaced by their contracts; decoder context any of its three enumerators'],
+         sub="generic decoder: memory safety for every configuration and context; wpos <= rpos <= len; len' <= len; returns HTP_OK; *flags only grow; status only takes configured values; terminates")
+
+UTF_LOOP = dict(assigns='rpos, wpos, codepoint, state, counter, seen_valid, tx->flags, tx->response_status_expected_number, ' + DATA,
+                inv=['wpos <= rpos', 'rpos <= len', 'C12_UTF8_HEAD(state, counter)', 'C12_FLAGS_GROW(tx->flags)', 'C12_STATUS_OK(tx->response_status_expected_number)'],
+                dec='2 * (len - rpos) + (counter != 0 ? 1 : 0)')
+contract('htp_utf8_decode_path_inplace', {'count': 1, 0: UTF_LOOP},
+         'void HARNESS(void) { htp_cfg_t *cfg; htp_tx_t *tx; bstr *p; htp_utf8_decode_path_inplace(cfg, tx, p); CANARY(); }',
+         replace=['bestfit_codepoint'], link=('bstr.c', 'htp_utf8_decoder.c'),
+         assumes=A_LEGAL + ['bestfit_codepoint replaced by its contract (real map: lemma c12_u_decode_realmap); the DFA step htp_utf8_decode_allow_overlong is the REAL function'],
+         sub="UTF-8 converter: memory safety; DFA state/byte-counter relation at the loop head (state in {0,2,3,5,7,8}, counter <= 3: no counter wrap, table index in range); wpos <= rpos <= len; "
+             "len' <= len; flags only grow; status only configured values; terminates (variant 2(len-rpos)+[inside a character])")
+contract('htp_utf8_validate_path', {'count': 1, 0: dict(assigns='rpos, codepoint, state, counter, seen_valid, tx->flags',
+                                                        inv=['rpos <= len', 'C12_UTF8_HEAD(state, counter)', 'C12_FLAGS_GROW(tx->flags)'], dec='len - rpos')},
+         'void HARNESS(void) { htp_tx_t *tx; bstr *p; htp_utf8_validate_path(tx, p); CANARY(); }', link=('bstr.c', 'htp_utf8_decoder.c'),
+         sub='UTF-8 validator: memory safety, read-only on the path, DFA state/counter relation, flags only grow, terminates')
+
+contract('x2c', None, 'void HARNESS(void) { unsigned char *w; x2c(w); CANARY(); }', flags_del=['--conversion-check'], min_obl=4,
+         assumes=['--conversion-check off: x2c narrows int to unsigned char modulo 256 on non-hex input (defined behaviour, documented: "will happily convert invalid input")'],
+         sub='x2c reads exactly two bytes and writes nothing')
+
+UNITS.append(U(name='htp_utf8_decode_allow_overlong', props=['C12', 'C01'], kind='lemma', src=['htp_utf8_decoder.c'], contracts_inc=[],
+               harness='''void HARNESS(void) { uint32_t state, cp, byte; VASSUME(byte <= 255);
+  VASSUME(state == 0 || state == 2 || state == 3 || state == 5 || state == 7 || state == 8);
+  uint32_t r = htp_utf8_decode_allow_overlong(&state, &cp, byte);
+  VASSERT(r == state, "the DFA returns the new state");
+  VASSERT(state == 0 || state == 1 || state == 2 || state == 3 || state == 5 || state == 7 || state == 8, "the state stays inside the reachable set {ACCEPT, REJECT, 2, 3, 5, 7, 8} (so every table index is < 400: bounds obligations)");
+  CANARY(); }''', min_obl=4, flags_del=['--unsigned-overflow-check'],
+               sub='UTF-8 DFA step, full domain (every reachable state x every byte): table indices in range, reachable state set closed',
+               assumes=['--unsigned-overflow-check off: *codep << 6 discards high bits by design (code point of an over-long garbage sequence is never used after REJECT)']))
